@@ -37,7 +37,9 @@ theorem replayGo_strip : ∀ (l : List Stmt) (s : BSt), stripOut (replayRing.go 
     unfold replayRing.go
     simp only []
     split
-    · exact dispatch_strip s x
+    · split
+      · rw [replayGo_strip xs, stripOut_emit]; exact dispatch_strip s x
+      · exact dispatch_strip s x
     · rw [replayGo_strip xs]; exact dispatch_strip s x
 
 theorem replayRing_strip (s : BSt) (lgi : Nat) : stripOut (replayRing s lgi).1 = stripOut s := by
